@@ -266,9 +266,10 @@ if count('store') == 1:
             return rec['ng']
         fenv = dict(base_env, NameGenerator=PExt('NameGenerator', ngen),
                     order=Helper(lambda e: [x[0] for x in rec['log']]),
+                    closed_before_build=Helper(lambda e: [x[0] for x in rec['log'] if x[0] in ('close', 'build')] == ['close', 'build']),
                     skip_kw=Helper(lambda e: entry('NameGenerator')[2].get('skip') is rec['kw']),
                     build_args=Helper(lambda e, og: entry('build')[1][0] is rec['ng'] and entry('build')[2].get('children_only') is (not og)))
         cs.append(Contract(MOD + ':Obfuscator.finalize', params={'self': ObfF()},
-                           ensures=["order() == ['close', 'NameGenerator', 'build']", 'skip_kw()', 'build_args(%s)' % og], env=fenv,
+                           ensures=["sorted(order()) == ['NameGenerator', 'build', 'close']", 'closed_before_build()', 'skip_kw()', 'build_args(%s)' % og], env=fenv,
                            notes='obfuscate_globals=%s' % og))
     return cs
